@@ -6,6 +6,7 @@ CONSTANTS
   Types = {}
   OpenKinds = {"plain", "sm", "smr", "resumed"}
   Cids = {"fresh"}
+  Attempts = {}
   IdRule = "replace"
   MaxHist = 6
 CONSTRAINT SessBound
